@@ -410,6 +410,38 @@ func runC17(c *Ctx) {
 	// every record that passes the length tests reaches the dispatch on its type: no path from the record-length test to
 	// the next iteration avoids the comparisons of the type field (a filter on class, TTL or anything else in between drops
 	// well-formed records - mDNS sets the top bit of the class on the records a responder owns)
+	// an address record is stored under the address its rdata holds: the key of IP4Records / IP6Records is what
+	// netip.AddrFromSlice (AddrFrom4 / AddrFrom16) made of the rdata bytes, with no further conversion (Unmap turns the
+	// well-formed AAAA ::ffff:192.0.2.7 into an IPv4 address in the AAAA table)
+	r.Rule("rdata-verbatim", "A and AAAA records are keyed by the address decoded from their rdata, unconverted", 2)
+	if fn := c.P.Method("", "DNSEntry", "decodeRRs"); fn != nil {
+		n := 0
+		core.EachInstr(fn, func(i ssa.Instruction) {
+			mu, ok := i.(*ssa.MapUpdate)
+			if !ok || !(strings.HasSuffix(norm(mu.Map), ".IP4Records") || strings.HasSuffix(norm(mu.Map), ".IP6Records")) {
+				return
+			}
+			n++
+			key := mu.Key
+			if ex, isE := key.(*ssa.Extract); isE {
+				key = ex.Tuple
+			}
+			st, det := core.Violated, "the key of "+norm(mu.Map)+" is "+norm(mu.Key)+", not the address netip made of the rdata bytes: the record is stored under a converted address and no longer equals what a reference decoder reads"
+			if call, isC := key.(*ssa.Call); isC && call.Call.StaticCallee() != nil {
+				switch call.Call.StaticCallee().String() {
+				case "net/netip.AddrFromSlice", "net/netip.AddrFrom4", "net/netip.AddrFrom16":
+					if strings.Contains(norm(call.Call.Args[0]), "arg1[") {
+						st, det = core.Proved, ""
+					}
+				}
+			}
+			r.Add(core.Obligation{Rule: "rdata-verbatim", Key: "rdata-verbatim decodeRRs " + norm(mu.Map), Func: core.FuncName(fn), Pos: c.P.Pos(core.PosOf(i)), Status: st,
+				Basis: "key = netip.AddrFromSlice(rdata bytes of the message)", Detail: det})
+		})
+		if n == 0 {
+			r.Add(core.Obligation{Rule: "rdata-verbatim", Key: "rdata-verbatim decodeRRs", Func: core.FuncName(fn), Status: core.Undecided, Detail: "no store into IP4Records / IP6Records found in decodeRRs"})
+		}
+	}
 	// the change flag of the answer decoder accumulates over the records of one message: once a record has set it, no
 	// later record takes it back (a message whose first record is new and whose last is already known is a change)
 	r.Rule("change-flag", "the change flag of the record loop is monotone: set by any record, reset by none", 1)
